@@ -10,7 +10,8 @@
 //	leave <node>            API.RemoveNode
 //	complete <job> <node> <ok|err>   ResizeInstructionComplete for the job-th created job (99 = unknown id)
 //	abort                   API.ResizeAbort
-//	failsend <0|1>          from now on sending a ResizeInstruction fails / succeeds
+//	failsend <-|*|nodes>    from now on SendTo(ResizeInstruction) fails for these target nodes (csv; * = every node; - = none),
+//	                        so any subset of a job's sends - first, middle, last, several - can be made to fail
 //
 // Every event is delivered in its own goroutine; the harness then waits until every goroutine of
 // the cluster is parked (runtime.Stack) and prints
@@ -69,15 +70,16 @@ type prop struct {
 	parts  [nKeys]int
 
 	// per case
-	cl       *pilosa.VerifC22Cluster
-	h        *hasher
-	failSend bool
-	fmu      sync.Mutex
-	old      map[int]bool // goroutines that existed before this case (goroutine ids are not monotonic across Ps)
-	ref      *rand.Rand
-	seq      []int64
-	parked   int
-	caseNo   int
+	cl      *pilosa.VerifC22Cluster
+	h       *hasher
+	failSet map[string]bool // target nodes for which sending a ResizeInstruction fails
+	failAll bool
+	fmu     sync.Mutex
+	old     map[int]bool // goroutines that existed before this case (goroutine ids are not monotonic across Ps)
+	ref     *rand.Rand
+	seq     []int64
+	parked  int
+	caseNo  int
 }
 
 func (p *prop) Rule() string {
@@ -452,7 +454,7 @@ func (p *prop) execLine(l string) string {
 			return "err:setup"
 		}
 		p.h = &hasher{keyOf: map[uint64]int{}, tab: tab}
-		p.failSend, p.parked = false, 0
+		p.failSet, p.failAll, p.parked = map[string]bool{}, false, 0
 		p.caseNo++
 		p.old = map[int]bool{}
 		for _, g := range goroutines() {
@@ -463,13 +465,14 @@ func (p *prop) execLine(l string) string {
 		p.seq = nil
 		send := func(to, kind string, job int64, state string) error {
 			if kind == "instruction" {
-				vh.Count("instruction-sent")
 				p.fmu.Lock()
-				fail := p.failSend
+				fail := p.failAll || p.failSet[to]
 				p.fmu.Unlock()
 				if fail {
-					return fmt.Errorf("verif: instruction send fails")
+					vh.Count("instruction-send-failed")
+					return fmt.Errorf("verif: instruction send to %s fails", to)
 				}
+				vh.Count("instruction-sent")
 			}
 			return nil
 		}
@@ -526,9 +529,19 @@ func (p *prop) execLine(l string) string {
 		return p.deliver(func() error { return p.cl.Complete(id, nid(n), et) }, false)
 	case ws[0] == "abort" && len(ws) == 1:
 		return p.deliver(func() error { return p.cl.Abort() }, true)
-	case ws[0] == "failsend" && len(ws) == 2 && (ws[1] == "0" || ws[1] == "1"):
+	case ws[0] == "failsend" && len(ws) == 2:
+		set := map[string]bool{}
+		if ws[1] != "*" && ws[1] != "-" {
+			for _, f := range strings.Split(ws[1], ",") {
+				v, err := strconv.Atoi(f)
+				if err != nil || v < 0 || v > 9 {
+					return "bad-op"
+				}
+				set[nid(v)] = true
+			}
+		}
 		p.fmu.Lock()
-		p.failSend = ws[1] == "1"
+		p.failSet, p.failAll = set, ws[1] == "*"
 		p.fmu.Unlock()
 		gs, quiet := p.waitQuiet()
 		return p.observe("ok", gs, quiet)
@@ -574,6 +587,95 @@ func genTable(r *vh.Rng) string {
 	return strings.Join(groups, ".")
 }
 
+// genFail picks the target nodes whose instruction sends fail.
+func genFail(r *vh.Rng, known []int) string {
+	switch r.Intn(6) {
+	case 0:
+		return "-"
+	case 1:
+		return "*"
+	}
+	seen := map[int]bool{}
+	var out []string
+	for i := r.Range(1, 2); i > 0; i-- {
+		v := r.Range(0, 8)
+		if len(known) > 0 && r.Chance(3, 4) {
+			v = known[r.Intn(len(known))]
+		}
+		if !seen[v] {
+			seen[v] = true
+			out = append(out, strconv.Itoa(v))
+		}
+	}
+	return strings.Join(out, ",")
+}
+
+// genSendFailure: a cluster of 3-5 members under a fully random placement table (so that a join or a
+// removal gives a job with several instructions), the sends to one or two of the target nodes fail -
+// whichever position they have among the job's sends -, then the action, completions of the other
+// nodes, and a second action with the failure switched off.
+func genSendFailure(cr *vh.Rng) vh.Case {
+	nm := cr.Range(3, 5)
+	members := []int{0}
+	for _, v := range cr.Perm(7) {
+		if len(members) < nm {
+			members = append(members, v+1)
+		}
+	}
+	var ms []string
+	for _, m := range members {
+		ms = append(ms, strconv.Itoa(m))
+	}
+	var groups []string
+	for k := 0; k < nKeys; k++ {
+		var b strings.Builder
+		for n := 1; n <= maxNodes; n++ {
+			b.WriteString(strconv.Itoa(cr.Intn(10)))
+		}
+		groups = append(groups, b.String())
+	}
+	lines := []string{"init " + strings.Join(ms, ",") + " " + strings.Join(groups, ".")}
+	newNode := 0
+	for v := 1; v <= 9; v++ {
+		in := false
+		for _, m := range members {
+			if m == v {
+				in = true
+			}
+		}
+		if !in && (newNode == 0 || cr.Chance(1, 3)) {
+			newNode = v
+		}
+	}
+	targets := append(append([]int(nil), members...), newNode)
+	var fs []string
+	seen := map[int]bool{}
+	for i := cr.Range(1, 2); i > 0; i-- {
+		v := targets[cr.Intn(len(targets))]
+		if !seen[v] {
+			seen[v] = true
+			fs = append(fs, strconv.Itoa(v))
+		}
+	}
+	lines = append(lines, "failsend "+strings.Join(fs, ","))
+	if cr.Chance(4, 5) {
+		lines = append(lines, fmt.Sprintf("join %d", newNode))
+	} else {
+		lines = append(lines, fmt.Sprintf("leave %d", members[1+cr.Intn(len(members)-1)]))
+	}
+	for _, m := range targets {
+		if cr.Chance(2, 3) {
+			lines = append(lines, fmt.Sprintf("complete 0 %d ok", m))
+		}
+	}
+	lines = append(lines, "failsend -", fmt.Sprintf("join %d", newNode))
+	for _, m := range targets {
+		lines = append(lines, fmt.Sprintf("complete 1 %d ok", m))
+	}
+	vh.Count("gen-send-failure-case")
+	return vh.Case{Lines: lines, Nontrivial: true}
+}
+
 func (p *prop) Gen(r *vh.Rng, tier string, n int) []vh.Case {
 	var cases []vh.Case
 	for k := 0; k < n; k++ {
@@ -589,6 +691,10 @@ func (p *prop) Gen(r *vh.Rng, tier string, n int) []vh.Case {
 		var ms []string
 		for _, m := range members {
 			ms = append(ms, strconv.Itoa(m))
+		}
+		if cr.Chance(1, 5) {
+			cases = append(cases, genSendFailure(cr))
+			continue
 		}
 		lines := []string{"init " + strings.Join(ms, ",") + " " + genTable(cr)}
 		steps := cr.Range(3, 14)
@@ -641,7 +747,7 @@ func (p *prop) Gen(r *vh.Rng, tier string, n int) []vh.Case {
 					hits++
 				}
 			case c < 92:
-				lines = append(lines, fmt.Sprintf("failsend %d", cr.Intn(2)))
+				lines = append(lines, "failsend "+genFail(cr, known))
 			default:
 				// complete every member for the oldest jobs: drives jobs to DONE
 				j := 0
